@@ -23,7 +23,8 @@ class LoopSpec:
     decreases(cx, env) -> z3 Int term (while loops; proves termination when given)
     """
 
-    def __init__(self, inv, modifies=None, havoc_local=None, decreases=None, name=None):
+    def __init__(self, inv, modifies=None, havoc_local=None, decreases=None, name=None, on_entry=None):
+        self.on_entry = on_entry      # on_entry(cx, env): snapshot ghost state when the loop is reached
         self.inv = inv
         self.modifies = modifies
         self.havoc_local = havoc_local
@@ -169,6 +170,8 @@ def symbolic_for(it, s, fr, iterable, ordinal):
     view = LoopView(it, iterable)
     n = view.length
     tag = f"{fr.func.__qualname__}/loop{ordinal}"
+    if spec.on_entry is not None:
+        spec.on_entry(cx, fr.env)
     for name, f in spec.inv(cx, fr.env, z3.IntVal(0), view):
         cx.prove(f"{tag}.init:{name}", f, where=f"line {s.lineno}")
     havocked = _havoc(it, fr, spec, s.body, s.target)
@@ -207,6 +210,8 @@ def symbolic_while(it, s, fr, spec, ordinal):
     from .interp import _Break, _Continue
     cx = it.cx
     tag = f"{fr.func.__qualname__}/loop{ordinal}"
+    if spec.on_entry is not None:
+        spec.on_entry(cx, fr.env)
     for name, f in spec.inv(cx, fr.env, None, None):
         cx.prove(f"{tag}.init:{name}", f, where=f"line {s.lineno}")
     havocked = _havoc(it, fr, spec, s.body, None)
@@ -294,29 +299,45 @@ def symbolic_comprehension(it, e, fr, sc, kind):
     res, scope = cx.generic_eval([j], dom, thunk)
     if kind == "dict":
         kk, vv = res
-        if not isinstance(sc.iterable, SMapView):
-            raise OutOfSubset("dict comprehension over a symbolic sequence", e)
-        m = sc.iterable.m
-        kz = m.kc.unwrap(kk)
+        if isinstance(sc.iterable, SMapView):
+            kc = sc.iterable.m.kc
+        elif isinstance(sc.iterable, SSeq):
+            kc = sc.iterable.ec
+        else:
+            kc = getattr(sc.iterable, "_key_codec", None)
+            if kc is None:
+                raise OutOfSubset("dict comprehension over this symbolic iterable", e)
+        kz = kc.unwrap(kk)
         if not kz.eq(view.elem_z3(j)):
-            raise OutOfSubset("dict comprehension re-keying a symbolic map", e)
-        vc = _codec_for(it, vv)
+            raise OutOfSubset("dict comprehension whose key is not the iterated element", e)
+        vc = _codec_for(it, vv, hint=getattr(sc.iterable, "_value_codec_hint", None))
         vz = vc.unwrap(vv)
-        # value at key k: substitute order[j] by k  (order is a bijection onto the key set)
-        key = z3.Const(cx.fresh_name("ck"), m.kc.sort)
+        # value at key k: replace the generic element by k (the value must depend on the element only)
+        key = z3.Const(cx.fresh_name("ck"), kc.sort)
         vz_k = z3.substitute(vz, (view.elem_z3(j), key))
         if mentions_const(vz_k, j):
             raise OutOfSubset("comprehension value depends on the iteration position", e)
-        out = SMap(cx, m.kc, vc, "comp", dom=m.dom, val=z3.Lambda([key], vz_k))
+        out = SMap(cx, kc, vc, "comp")
+        jj = z3.Int(cx.fresh_name("cj"))
+        if isinstance(sc.iterable, SMapView):
+            cx.assume(z3.ForAll([key], out.has(key) == sc.iterable.m.has(key)))
+        elif isinstance(sc.iterable, SSeq) and sc.iterable.mem is not None:
+            cx.assume(z3.ForAll([key], out.has(key) == sc.iterable.mem(key)))
+        elif getattr(sc.iterable, "_mem", None) is not None:
+            cx.assume(z3.ForAll([key], out.has(key) == sc.iterable._mem(key)))
+        else:
+            cx.assume(z3.ForAll([key], out.has(key) == z3.Exists([jj], z3.And(0 <= jj, jj < view.length, view.elem_z3(jj) == key))))
+        cx.assume(z3.ForAll([key], z3.Implies(out.has(key), out.at(key) == vz_k)))
         return out
     vc = _codec_for(it, res)
     vz = vc.unwrap(res)
     jj = z3.Int(cx.fresh_name("cj"))
-    arr = z3.Lambda([jj], z3.substitute(vz, (j, jj)))
     if kind == "gen":
         return SGen(view.length, lambda q: vc.wrap(z3.substitute(vz, (j, q))), cx)
     if kind == "list":
-        return SSeq(cx, vc, "comp", length=view.length, arr=arr, pytype=list)
+        out = SSeq(cx, vc, "comp", length=view.length, pytype=list)
+        cx.assume(z3.ForAll([jj], z3.Implies(z3.And(0 <= jj, jj < view.length), out.at(jj) == z3.substitute(vz, (j, jj)))))
+        return out
     raise OutOfSubset("set comprehension over a symbolic iterable", e)
 
 
@@ -325,8 +346,12 @@ def mentions_const(e, c):
     return str(c) in const_names(e)
 
 
-def _codec_for(it, v):
+def _codec_for(it, v, hint=None):
     from .coll import INT, REAL, STR, BOOL
+    if hint is not None:
+        return hint
+    if v is None:
+        raise OutOfSubset("comprehension producing None without a value codec")
     if isinstance(v, SV):
         if v.kind == "int":
             return INT
